@@ -131,8 +131,11 @@ class Pool:
             return sp.Merge([self.block(b, share_constraints, path + str(i)) for i, b in enumerate(tree["blocks"])],
                             cons(tree["cons"]), modes[tree.get("mode", "repeat")], **kw)
         if op == "nest":
+            kw = {}
+            if tree.get("align"):
+                kw["alignment"] = aligns[tree["align"]]
             return sp.Nest(self.block(tree["outer"], share_constraints, path + "o"),
-                           self.block(tree["inner"], share_constraints, path + "i"), cons(tree["cons"]))
+                           self.block(tree["inner"], share_constraints, path + "i"), cons(tree["cons"]), **kw)
         raise ValueError(op)
 
 
